@@ -5,6 +5,7 @@ import GoSQLXModel.Props.C14
 import GoSQLXModel.Props.C15
 import GoSQLXModel.Props.C16
 import GoSQLXModel.Gen.Structure
+import GoSQLXModel.Proofs.ExprProgress
 /-!
 # C01 — No input can crash, panic or hang any entry point
 
@@ -32,8 +33,15 @@ What the models carry, for every input:
   a token, calls a parse function or leaves.  (A syntactic criterion, checked on every loop of the package, including
   loops added later; it is what the cut-statement runs sample dynamically.)
 
-**Partial**: the statement and expression grammar below the loops (that `parseStatement` always moves forward or
-fails on every token list, including lists without an end marker) is not modelled; it is covered by the child-process
+* expression ladder: `expression_ladder_moves_forward` (`Proofs/ExprProgress.lean`) — for **every** token list (with or
+  without an end marker, produced by a tokenizer or not), every depth and every fuel, each level of the modelled ladder
+  (OR, AND, comparison / BETWEEN / LIKE / IN / IS, `||`, additive, multiplicative, primary, call arguments, IN lists)
+  hands back strictly fewer tokens than it was given when it succeeds, and no loop body hands back more than it was
+  given: so every iteration of the ladder's `for p.isType(…)` loops consumes tokens and the statement loops cannot spin on
+  an expression.
+
+**Partial**: the statement grammar below the loops (that `parseStatement` always moves forward or fails on every token
+list, including lists without an end marker) is modelled for the expression ladder only; it is covered by the child-process
 survival run over every entry point (byte strings, cut statements, deep and long shapes, and token sequences no
 tokenizer produces). Memory safety and runtime fatal errors other than stack exhaustion are outside any model.
 -/
@@ -57,6 +65,17 @@ theorem loops_return (I : Input) (hF : Frame I) (strict : Bool) :
 /-- every token-stream loop of the parser package is left at the end of the tokens and moves on each iteration -/
 theorem gen_parser_loops_leave_at_end :
     (Gen.Structure.parserLoops.all fun l => l.2.1 != "open" && l.2.2) = true ∧ Gen.Structure.parserLoops.length ≥ 40 := by
+  decide +kernel
+
+/-- the expression ladder moves forward on every token list: a successful `parseExpression` (and every level below it,
+    `ExprParse.prog`) hands back strictly fewer tokens than it was given -/
+theorem expression_ladder_moves_forward (f d : Nat) (ts : List ExprParse.PTok) (e : ExprParse.Ex) (rest : List ExprParse.PTok)
+    (h : ExprParse.pExpr f d ts = .ok e rest) : rest.length < ts.length :=
+  ExprParse.pExpr_progress f d ts e rest h
+
+/-- non-vacuity: `a + ` followed by nothing fails rather than loops, `a + b )` stops before the parenthesis -/
+example : (ExprParse.pExpr 40 0 [⟨.ident, "a"⟩, ⟨.plus, "+"⟩]).canon = "ERR E2001" := by decide +kernel
+example : (ExprParse.pExpr 40 0 [⟨.ident, "a"⟩, ⟨.plus, "+"⟩, ⟨.ident, "b"⟩, ⟨.rparen, ")"⟩]).canon = "OK (id(a) + id(b)) 1" := by
   decide +kernel
 
 /-- traversal-based functions never leave the tree -/
